@@ -222,6 +222,11 @@ func scenarioCfgMap(t *traceWriter, rng *rand.Rand) {
 			// a plain one for U+00A0): every component must take the origin exactly as configured
 			origins = append(origins, fmt.Sprintf("cfg.example/%d/a ", ci), fmt.Sprintf(" cfg.example/%d/b", ci), fmt.Sprintf("cfg.example/%d/c\u00a0", ci), fmt.Sprintf("cfg.example/%d/a\t", ci))
 		}
+		if ci%4 == 1 {
+			// an entry without Origin, and origins that are the NAME of a configured key: whatever a component does with a
+			// missing origin, every component must do the same, and two entries must never end up under one ID unrefused
+			origins = append(origins, "", "", keyA.name, keyB.name)
+		}
 		var ents []ent
 		ne := 1 + rng.Intn(4)
 		for i := 0; i < ne; i++ {
